@@ -273,3 +273,23 @@ package processor
 //@   props C05
 //@   ensures [head-always-needs-its-input-in-order] result != nil && result.inputOrderMatters && !result.ignoresInputOrder
 //@ end
+
+// C06 (a command means the same however its input is cut into batches): `bin`
+// without span= derives its span from the range of the field over the WHOLE
+// input, collected batch by batch in a first pass.  After a batch the running
+// range [minVal, maxVal] covers every number of that batch and everything it
+// covered before — both ends, whichever end a batch extends — so the range
+// after the last batch is the range of all numbers, however they were cut.
+//@ func (*binProcessor).updateTheMinMaxValues
+//@   props C06
+//@   mode real
+//@   note mode real: the function only compares floats and takes minima / maxima, which are exact in real arithmetic once NaN is excluded (assumed for the column values, required for the running range)
+//@   assumecalleerequires
+//@   requires p != nil && !isNaN(p.minVal) && !isNaN(p.maxVal)
+//@   site callret iqr.ReadColumn #1:
+//@     assume [column-values-are-not-NaN] forall(k, 0, len(result0), implies(cvHasFloat(result0[k]), !isNaN(cvFloat(result0[k]))))
+//@   loop 1:
+//@     invariant [range-only-widens] p.minVal <= old(p.minVal) && p.maxVal >= old(p.maxVal) && !isNaN(p.minVal) && !isNaN(p.maxVal)
+//@     invariant [numbers-read-so-far-are-covered] forall(k, 0, rangeindex+1, implies(cvHasFloat(values[k]) && !isNaN(cvFloat(values[k])), p.minVal <= cvFloat(values[k]) && cvFloat(values[k]) <= p.maxVal))
+//@   ensures [range-only-widens] p.minVal <= old(p.minVal) && p.maxVal >= old(p.maxVal)
+//@ end
